@@ -593,7 +593,7 @@ mod inner {
             };
             ArgRangesIter {
                 args: self,
-                cur: 0,
+                cur: self.scope.start,
                 width,
             }
         }
